@@ -9,6 +9,7 @@ import ast
 
 from .dataflow import key, varkey, unawait
 from .engine import terms
+from .terms import crepr
 from .loader import walk_expr
 from .util import node_calls, call_attr, src
 
@@ -167,7 +168,7 @@ def summary(ctx, f):
                                     ops = (("c", lo), y)
                                     pol = not pol
             if fa[0][0] in ("eq", "is"):
-                ops = tuple(sorted(ops, key=repr))
+                ops = tuple(sorted(ops, key=crepr))
             out.add(norm_term((fa[0][0], ops, pol)))
         return frozenset(out)
 
@@ -184,7 +185,7 @@ def summary(ctx, f):
             fs = fn_ if fs is None else (fs & fn_)
             d = frozenset(k2 for k2, ns in effect_nodes.items() if k2 != k_ and k2[0] in ("call", "store", "yield", "yield*", "iterate", "new") and g.dominates(ns, n, exc=False) and not any(x is n for x in ns))
             doms = d if doms is None else (doms & d)
-            lp = tuple(sorted(repr(norm_term(T.term(f, h, h.exprs()[0]))) for h in n.loops)) if k_[0] not in ("raise", "return") else ()
+            lp = tuple(sorted(crepr(norm_term(T.term(f, h, h.exprs()[0]))) for h in n.loops)) if k_[0] not in ("raise", "return") else ()
             loops = lp if loops is None else (loops if loops == lp else ("mixed",))
         summ[k_] = (fs, doms, loops, len(nodes) if k_[0] in ("call", "store", "new") else 1)
     return summ
@@ -192,7 +193,7 @@ def summary(ctx, f):
 
 def diff_summaries(a, b):
     """First difference between two summaries as text, or None."""
-    for k_ in sorted(set(a) | set(b), key=repr):
+    for k_ in sorted(set(a) | set(b), key=crepr):
         if k_ not in a:
             return "effect only in the async version: %s" % _short(k_)
         if k_ not in b:
@@ -211,9 +212,9 @@ def diff_summaries(a, b):
 
 
 def _short(t):
-    from .terms import show
+    from .terms import crepr, show
     try:
         s = show(t)
     except Exception:   # noqa
-        s = repr(t)
+        s = crepr(t)
     return s if len(s) < 160 else s[:157] + "..."
